@@ -157,7 +157,7 @@ extern "C" int harness_main()
 		c.id = i; c.sock = new tcp::socket(*cios[i % 2]);
 		c.sock->open(PROTO_V, ec);
 #ifdef SAMEPORT
-		c.sock->bind(tcp::endpoint(C[i % 2], 5000), ec);
+		c.sock->bind(tcp::endpoint(C[i % 2], (unsigned short)(5000 + i / 2)), ec);   // the same port on both nodes
 		vp_assert(!ec, 2);
 #endif
 		c.t_call = now_ns();
